@@ -173,7 +173,7 @@ pub fn run(tape: &[u8], cx: &Cx) -> Outcome {
                 }
             }
             Err(msg) => {
-                if rx::is_overflow(&msg) {
+                if rx::is_overflow(&msg, 0) {
                     return Outcome::discarded("loop-range arithmetic overflow (documented panic)");
                 }
                 o.fail("C07/panics", format!("operation sequence panicked: {}", msg));
@@ -195,7 +195,7 @@ pub fn run(tape: &[u8], cx: &Cx) -> Outcome {
             }
         }
         Err(msg) => {
-            if rx::is_overflow(&msg) {
+            if rx::is_overflow(&msg, 0) {
                 return Outcome::discarded("loop-range arithmetic overflow (documented panic)");
             }
             o.fail("C07/panics", format!("operation sequence panicked: {}", msg));
